@@ -169,7 +169,7 @@ func expMod(base, x, p *big.Int) *big.Int {
 // dhClient runs the two-message exchange shared by the fixed groups and the
 // tail of DH-GEX.  pre is written into the hash between K_S and e.
 func dhClient(c *Conn, m *Magics, h crypto.Hash, p, g *big.Int, initMsg, replyMsg byte, pre []byte) (*KexResult, error) {
-	x := dhSecret(c.Cfg.Rand, p)
+	x := c.dhEphemeral(p, hintValue(c))
 	e := c.tamperPub("e", MpintContent(expMod(g, x, p)))
 	if err := c.KexWrite((&W{}).Byte(initMsg).Str(e).B); err != nil {
 		return nil, err
@@ -217,7 +217,7 @@ func dhServer(c *Conn, m *Magics, hk HostKey, hostAlgo string, h crypto.Hash, p,
 	if !c.skipChecks() && !dhPeerOK(ev, p) {
 		return nil, errors.New("refpeer: DH e out of range")
 	}
-	y := dhSecret(c.Cfg.Rand, p)
+	y := c.dhEphemeral(p, ev)
 	f := c.tamperPub("f", MpintContent(expMod(g, y, p)))
 	k := c.tamperK(MpintContent(expMod(ev, y, p)))
 	w := &W{}
